@@ -146,6 +146,11 @@ Section Law.
         | Some (k, v0) => (Ok, mremove k m, RItem k (match lookup k m with Some x => x | None => v0 end))
         end
     | Clear => (Ok, [], RNone)
+    | UpdateBad ps _ =>                             (* dict.update raises ValueError; a failing operation changes nothing *)
+        match validate_pairs ps with
+        | Some _ => (Raise ValueError, m, RNone)
+        | None => (Raise TraitError, m, RNone)
+        end
     | Ctor a ps =>                                  (* dict(validated items) *)
         match validate_pairs (items_of a ps) with
         | Some vps => (Ok, update_all vps [], RNone)
